@@ -28,6 +28,7 @@ RULE = ('full product: structure {Obs, list(1..3), ndarray (2,) (2,2) (1,2,2) an
 ASSUMPTIONS = ['fluctuations and replica means are compared to 1e-13 of the chain scale (the format stores delta + (r - value))',
                'NaN tokens written for undefined Corr slices are parsed with the Python json module before schema validation']
 EXHAUSTIVE = True
+REPEAT = 2      # every case is evaluated twice in the same process: the second verdict must equal the first (call-history oracle)
 CHUNK = 2
 
 CONTENTS = ['single', 'tworep', 'multi', 'purecov', 'reweighted', 'bare', 'trap']
